@@ -229,7 +229,12 @@ class SequenceBasedRoutingProblem(RoutingProblem):
         Return of None means the tuple corresponds to a fixed variable
         """
         self.enumerate_variables()
-        index = self.var_mapping_inverse[vehicle_index, sequence_index, node_index]
+        key = (vehicle_index, sequence_index, node_index)
+        if any(k < 0 or k >= size for k, size in zip(key, self.var_mapping_inverse.shape)):
+            # Not a (vehicle, position, node) of this problem; in particular a
+            # negative entry must not wrap around to another variable
+            return None
+        index = self.var_mapping_inverse[key]
         if index < 0:
             return None
         # else
